@@ -1002,4 +1002,90 @@ theorem pci_start {rank : TxId → Nat} {E : HEnv} {w0 : HW} (H : HInvC rank E w
     PCI (E.ctx w0.node) addrs (removeWallet queueLen keystores passOk w0.s w).2 w0.sp.chain :=
   pci_flag (pci_of_hinvc H hn addrs) queueLen keystores passOk w
 
+-- ------------------------------------------------------------------ a concrete instance
+
+namespace Ex
+
+/-- W1 survives, W2 (script hash A2) is being removed -/
+def own : Own := [("A1", ("W1", false)), ("A2", ("W2", false))]
+def g : Block := ⟨"G", "", 0, []⟩
+/-- pending, pays the survivor; confirmed by B1 -/
+def t1 : Tx := ⟨"T1", false, [], [⟨"A1", 5, .std⟩]⟩
+/-- pending, pays the removed wallet only -/
+def t2 : Tx := ⟨"T2", false, [], [⟨"A2", 7, .std⟩]⟩
+/-- pending, pays the survivor; stays unconfirmed -/
+def t3 : Tx := ⟨"T3", false, [], [⟨"A1", 9, .std⟩]⟩
+def b1 : Block := ⟨"B1", "G", 1, [t1]⟩
+def node0 : Node := { chain := [g], known := [("G", g)] }
+def node1 : Node := { chain := [g, b1], known := [("G", g), ("B1", b1)] }
+def ctx : Ctx := { p := {}, own := own, wallets := ["W1", "W2"], node := node0 }
+def cred (a : Addr) (n : Nat) : Credit := unminedCreditOf ⟨0, ⟨a, n, .std⟩, "", false⟩
+/-- the store follows chain G; W2 is flagged; three pending transactions with their unmined credits -/
+def s0 : Store :=
+  { status := [("W1", ⟨none, false⟩), ("W2", ⟨none, true⟩)], balance := [("W1", 0), ("W2", 0)],
+    sync := [(0, "G")], syncedTo := 0,
+    pending := [("T1", t1), ("T2", t2), ("T3", t3)],
+    pendCred := [(("T1", 0), cred "A1" 5), (("T2", 0), cred "A2" 7), (("T3", 0), cred "A1" 9)] }
+def x0 : ISt := { s := s0, v := { best := ⟨0, "G"⟩ }, node := node0 }
+/-- the extension block B1 (confirms T1) · a removal step -/
+def evs : List IEv := [.notify node1 b1, .rem]
+
+/-- the history runs: after the block T1 is confirmed and un-pended (T2, T3 and their credits stay); the removal step
+    (the finishing one: W2 has no mined credit) erases T2 and its credit; T3 and its credit survive -/
+theorem runs :
+    (irun 1 ctx "W2" ["A2"] x0 [.notify node1 b1]).map (fun x => (x.s.pending.map (·.1), x.s.pendCred.map (·.1))) =
+      some (["T2", "T3"], [("T2", 0), ("T3", 0)]) ∧
+    (irun 1 ctx "W2" ["A2"] x0 evs).map (fun x => (x.fin, x.s.pending.map (·.1), x.s.pendCred.map (·.1))) =
+      some (true, ["T3"], [("T3", 0)]) := by decide
+
+theorem pci0 : PCI ctx ["A2"] x0.s x0.node.chain := by
+  refine ⟨?_, ?_, by unfold PendOK; decide, by unfold KeysNodup; decide⟩
+  · intro id t h
+    have hm := MW.Lemmas.LedgerPending.mem_of_get h
+    simp only [x0, s0, List.mem_cons, Prod.mk.injEq, List.not_mem_nil, or_false] at hm
+    rcases hm with ⟨rfl, rfl⟩ | ⟨rfl, rfl⟩ | ⟨rfl, rfl⟩ <;> rfl
+  · intro id j cr h hs
+    have hm := MW.Lemmas.LedgerPending.mem_of_get h
+    simp only [x0, s0, List.mem_cons, Prod.mk.injEq, List.not_mem_nil, or_false] at hm
+    rcases hm with ⟨⟨rfl, rfl⟩, rfl⟩ | ⟨⟨rfl, rfl⟩, rfl⟩ | ⟨⟨rfl, rfl⟩, rfl⟩
+    · exact ⟨t1, ⟨"A1", 5, .std⟩, "W1", false, rfl, rfl, rfl, by decide, rfl⟩
+    · exact absurd hs (by decide)
+    · exact ⟨t3, ⟨"A1", 9, .std⟩, "W1", false, rfl, rfl, rfl, by decide, rfl⟩
+
+theorem dom : DomP 1 ctx "W2" ["A2"] x0 evs := by
+  refine ⟨⟨rfl, rfl, ?_, ?_, fun _ => rfl, by decide⟩, ?_⟩
+  · intro a w' ch h hs
+    have hm := MW.Lemmas.LedgerPending.mem_of_get h
+    simp only [ctx, own, List.mem_cons, Prod.mk.injEq, List.not_mem_nil, or_false] at hm
+    rcases hm with ⟨rfl, rfl, rfl⟩ | ⟨rfl, rfl, rfl⟩
+    · decide
+    · exact absurd hs (by decide)
+  · intro t' ht' t h
+    simp only [b1, List.mem_cons, List.not_mem_nil, or_false] at ht'
+    subst ht'
+    have : AMap.get x0.s.pending t1.id = some t1 := rfl
+    rw [this] at h; cases h; rfl
+  · cases istep 1 ctx "W2" ["A2"] x0 (.notify node1 b1) with
+    | none => trivial
+    | some x1 =>
+      refine ⟨trivial, ?_⟩
+      cases istep 1 ctx "W2" ["A2"] x1 .rem <;> trivial
+
+/-- `PCI` (hence `PendOK`) at each state of the history: at the start, after the block, after the removal step -/
+example : ∀ (pre suf : List IEv) (y : ISt), evs = pre ++ suf → irun 1 ctx "W2" ["A2"] x0 pre = some y →
+    PCI ctx ["A2"] y.s y.node.chain ∧ PendOK ["A2"] y.s y.node.chain :=
+  pendOK_run pci0 dom
+
+/-- the single steps: `pci_connect` for the block, `pci_rem` for RemoveRelevantTx on the store after it -/
+example (s1 : Store) (conf : List TxId)
+    (h : filterBlock { ctx with node := node1 } s0 (readyWallets s0 ["W1", "W2"]) b1 = .ok (s1, conf))
+    (o : StepOut) (hr : removeRelevantTx 1 { ctx with node := node1 } s1 ["A2"] = some o) :
+    PCI ctx ["A2"] s1 [g, b1] ∧ PCI ctx ["A2"] o.s [g, b1] := by
+  obtain ⟨⟨_, _, d3, d4, d5, d6⟩, _⟩ := dom
+  have h1 : PCI { ctx with node := node1 } ["A2"] s1 ([g] ++ [b1]) :=
+    pci_connect (pci0.own (c' := { ctx with node := node1 }) rfl) h d3 d4 d5 d6
+  exact ⟨h1.own rfl, (pci_rem h1 hr).own rfl⟩
+
+end Ex
+
 end MW.Lemmas.RemovePend
